@@ -58,10 +58,15 @@ impl DestructTuple {
                 self.idents.iter().cloned(),
                 elements.iter().map(|ins| &ins.instruction),
             )),
-            instruction => {
-                let types = instruction.return_type().flatten_tuple().unwrap();
-                local_variables.extend(zip(self.idents.iter().cloned(), types.iter().cloned()))
-            }
+            instruction => match instruction.return_type().flatten_tuple() {
+                Some(types) => {
+                    local_variables.extend(zip(self.idents.iter().cloned(), types.iter().cloned()))
+                }
+                // of type `!` once a constant condition was folded away: nothing is ever bound
+                None => local_variables.extend(
+                    self.idents.iter().cloned().map(|ident| (ident, Type::Never)),
+                ),
+            },
         }
     }
 }
